@@ -71,9 +71,11 @@ func (c *Calcium) newWorkloadSender(ctx context.Context, ID string, resp chan *t
 				curFile = data.Dst
 				pr, pw := io.Pipe()
 				writer = pw
-				utils.SentryGo(func(ID, name string, size int64, content io.Reader, uid, gid int, mode int64) func() {
+				utils.SentryGo(func(ID, name string, size int64, content *io.PipeReader, uid, gid int, mode int64) func() {
 					return func() {
 						defer wg.Done()
+						// whatever the outcome, nobody reads this pipe any more: do not leave the writer blocked
+						defer content.Close()
 						if err := sender.calcium.withWorkloadLocked(ctx, ID, false, func(ctx context.Context, workload *types.Workload) error {
 							err := errors.WithStack(workload.Engine.VirtualizationCopyChunkTo(ctx, ID, name, size, content, uid, gid, mode))
 							resp <- &types.SendMessage{ID: ID, Path: name, Error: err}
@@ -90,7 +92,12 @@ func (c *Calcium) newWorkloadSender(ctx context.Context, ID string, resp chan *t
 				break
 			}
 		}
-		writer.Close()
+		if writer != nil {
+			writer.Close()
+		}
+		// keep taking the chunks nobody will write any more, so that the caller never blocks on a full buffer
+		for range sender.buffer { //nolint
+		}
 	})
 	return sender
 }
